@@ -42,7 +42,8 @@ def register(prop, run, KERNELS, C01_COVERS):
          quick=[run("C13_step", covers=inv_cov + ["decoded", "reopened"], nmax=2, cache=1, decode=1),
                 run("C13_step", covers=inv_cov, nmin=3, nmax=3, store=0, cache=0, variant=1),
                 run("C13_step", covers=inv_cov + ["canonical-checked"], nmax=3, store=0, cache=0, variant=2),
-                run("C13_step", covers=inv_cov + ["canonical-checked"], nmin=1, nmax=2, store=1, cache=2, variant=2, vlenmin=0)],
+                run("C13_step", covers=inv_cov + ["canonical-checked"], nmin=1, nmax=2, store=1, cache=2, variant=2, vlenmin=0),
+                run("C13_step", covers=["done", "canonical-checked"], nmin=3, nmax=3, store=0, cache=0, variant=2, partial=1, vlenmin=1)],
          thorough=[run("C13_step", covers=inv_cov + ["decoded", "reopened"], nmax=2, cache=1, decode=1, klen=2, vlen=1, budget=1800),
                    run("C13_step", covers=inv_cov + ["decoded"], nmin=3, nmax=3, cache=2, decode=1, budget=1800),
                    run("C13_step", covers=inv_cov, nmin=4, nmax=4, store=0, cache=0, variant=1, budget=1800),
@@ -112,7 +113,7 @@ def register(prop, run, KERNELS, C01_COVERS):
 
     prop("C04",
          quick=[run("C04_hist", covers=["done", "had-snapshot"], store=0, k=4, snaps=2, opmask=mask(0, 1, 4, 5, 6)),
-                run("C04_hist", covers=["done", "had-snapshot"], store=1, k=3, snaps=2, opmask=mask(0, 1, 2, 3, 4, 6, 7, 8, 10, 15, 16)),
+                run("C04_hist", covers=["done", "had-snapshot"], store=1, k=3, snaps=2, opmask=mask(0, 1, 2, 3, 4, 6, 7, 8, 9, 10, 15, 16)),
                 run("C04_hist", covers=["done", "had-snapshot"], store=0, k=4, snaps=2, init=0, opmask=mask(0, 4, 6, 10))],
          thorough=[run("C04_hist", covers=["done", "had-snapshot"], store=1, k=5, snaps=2, opmask=mask(0, 1, 2, 3, 4, 5, 6), budget=1800),
                    run("C04_hist", covers=["done", "had-snapshot"], store=0, k=5, snaps=2, init=0, opmask=mask(0, 4, 6, 10), budget=1800),
